@@ -15,7 +15,7 @@ for q in sorted(glob.glob("/verif/seeded/*/meta.json")):
     if h.startswith("missed"):
         res = "**missed at first**: " + re.sub(r"^missed by the ", "", h)
     else:
-        res = "caught" if m["check"]["exit"] == 1 else "**MISSED**"
+        res = "caught" if m["check"]["exit"] == 1 else "**MISSED**: " + re.sub(r"^NOT caught[,:]? ?", "", h)
     keys = ", ".join("`%s`" % k[4:] for k in m["check"]["violation_keys"][:2])
     needs = re.sub(r"^needs ", "", m.get("needs") or "")
     rows.setdefault(rnd, []).append("| %s | %s; needs: %s | %s | %s |" % (m["id"], m.get("what"), needs, res, keys))
@@ -28,7 +28,10 @@ for rnd in sorted(rows):
     out.append("")
     tot += len(rows[rnd])
     miss += sum("missed at first" in r for r in rows[rnd])
-out.append("Rounds >= 2 together: %d breakages, %d caught by the check as it stood, %d missed at first and caught after the workload or the oracle was widened." % (tot, tot - miss, miss))
+    never = globals().get("never", 0) + sum("**MISSED**" in r for r in rows[rnd])
+    globals()["never"] = never
+never = globals().get("never", 0)
+out.append("Rounds >= 2 together: %d breakages, %d caught by the check as it stood, %d missed at first and caught after the workload or the oracle was widened, %d not caught (reason in the table)." % (tot, tot - miss - never, miss, never))
 text = "\n".join(out)
 s = open("/verif/DESIGN.md").read()
 b, e = "<!-- seeded-table:begin -->", "<!-- seeded-table:end -->"
